@@ -579,6 +579,42 @@ Proof.
   - apply e5_Pu_dequeue_finish; [exact HI | exact Hst].
 Qed.
 
+(* a transient failure of a store read of the write path ([AResumeReadFail t]): before the lock request the thread
+   is idle (refusal exits; SaveMeta goes on as [enter_exec] does); at "locked" it holds: unlock, then finish *)
+Lemma e5_resume_read_fail_inv s t s' : e5_Inv s -> resume_read_fail s t = Some s' -> e5_Inv s'.
+Proof.
+  intros HI H. unfold resume_read_fail in H.
+  destruct (get_thread (threads s) t) as [th|] eqn:Eg; [|discriminate].
+  destruct (Nat.eqb (t_gen th) (gen s)) eqn:Egen; cbn [negb] in H; [|discriminate].
+  apply Nat.eqb_eq in Egen.
+  destruct (p_th _ _ _ _ _ HI t th Eg) as (Tg & Tk & Tp).
+  assert (Hst : e5_sto (threads s) t = e5_st th) by (unfold e5_sto; now rewrite Eg).
+  unfold e5_st in Hst. cbv beta iota zeta in H.
+  destruct (t_pc th) eqn:Hpc; simpl in Tk, Tp, Hst; cbv beta iota zeta in H; try discriminate.
+  - (* PRevTaken *) injection H as <-. apply e5_Pu_inv, e5_Pu_finish; [exact HI | exact Hst].
+  - (* PIkTaken *) injection H as <-. apply e5_Pu_inv, e5_Pu_finish; [exact HI | exact Hst].
+  - (* PIkLookup *)
+    destruct hit as [e|]; [discriminate|].
+    destruct (rq_kind (t_req th)) eqn:Ek.
+    + destruct (N.eqb (rq_ref (t_req th)) 0); [|discriminate].
+      injection H as <-. apply e5_Pu_inv, e5_Pu_finish; [exact HI | exact Hst].
+    + discriminate.
+    + destruct (rq_target_tx (t_req th)); [|discriminate].
+      injection H as <-. apply e5_Pu_inv, e5_Pu_set_th; [exact HI | | ].
+      * simpl. rewrite Hst. unfold e5_st. destruct (rq_dry (t_req th)); simpl; rewrite Ek; reflexivity.
+      * destruct (rq_dry (t_req th)); e5_tok_tac.
+    + destruct (rq_target_tx (t_req th)); [|discriminate].
+      injection H as <-. apply e5_Pu_inv, e5_Pu_finish; [exact HI | exact Hst].
+  - (* PRefTaken *) injection H as <-. apply e5_Pu_inv, e5_Pu_finish; [exact HI | exact Hst].
+  - (* PRefLookup *)
+    destruct hit; [discriminate|].
+    destruct (rq_kind (t_req th)); try discriminate.
+    injection H as <-. apply e5_Pu_inv, e5_Pu_finish; [exact HI | exact Hst].
+  - (* PLocked *)
+    destruct (needs_balance th); [|discriminate].
+    injection H as <-. apply e5_Pu_inv, e5_Pu_unlock_finish; [exact HI|]. simpl. rewrite Hst. discriminate.
+Qed.
+
 Lemma e5_start_inv s t rq s' : e5_Inv s -> start s t rq = Some s' -> e5_Inv s'.
 Proof.
   intros HI H. unfold start in H.
@@ -642,6 +678,7 @@ Proof.
   - injection H as <-. apply e5_crash_inv.
   - eapply e5_cancel_inv; eauto.
   - eapply e5_resume_cancelled_inv; eauto.
+  - eapply e5_resume_read_fail_inv; eauto.
 Qed.
 
 Lemma e5_run_inv : forall acts s s', e5_Inv s -> run s acts = Some s' -> e5_Inv s'.
@@ -991,6 +1028,103 @@ Proof.
   - intros w Hw. destruct (e5_queue_is_waiting s w HI Hw) as (th & E & _). eauto.
 Qed.
 
+(* ---- the failed store read ([AResumeReadFail t]) ------------------------------------------------------------- *)
+(* normal form of the step: either the thread is overwritten by an idle one and table / queue are untouched
+   (every pc but "locked"), or it is the release-then-finish of a holder parked at "locked" *)
+Lemma e5_read_fail_cases s t th s' :
+  get_thread (threads s) t = Some th -> resume_read_fail s t = Some s' ->
+  (t_pc th <> PLocked /\
+   exists thN, threads s' = set_thread (threads s) t thN /\ e5_st thN = E5Idle /\
+               v_locks s' = v_locks s /\ v_queue s' = v_queue s) \/
+  (t_pc th = PLocked /\
+   s' = to_state (gen s) (finish t th (RErr EStoreRead) false true true true (unlock t (of_state s)))).
+Proof.
+  intros Eg H. unfold resume_read_fail in H. rewrite Eg in H.
+  destruct (negb (Nat.eqb (t_gen th) (gen s))); [discriminate|].
+  cbv beta iota zeta in H.
+  destruct (t_pc th) eqn:Hpc; try discriminate.
+  - (* PRevTaken *) left. split; [discriminate|]. injection H as <-. eexists. repeat split.
+  - (* PIkTaken *) left. split; [discriminate|]. injection H as <-. eexists. repeat split.
+  - (* PIkLookup *)
+    left. split; [discriminate|].
+    destruct hit as [e|]; [discriminate|].
+    destruct (rq_kind (t_req th)) eqn:Ek.
+    + destruct (N.eqb (rq_ref (t_req th)) 0); [|discriminate]. injection H as <-. eexists. repeat split.
+    + discriminate.
+    + destruct (rq_target_tx (t_req th)); [|discriminate]. injection H as <-. eexists.
+      split; [reflexivity|]. split; [|split; reflexivity].
+      unfold e5_st. destruct (rq_dry (t_req th)); simpl; rewrite Ek; reflexivity.
+    + destruct (rq_target_tx (t_req th)); [|discriminate]. injection H as <-. eexists. repeat split.
+  - (* PRefTaken *) left. split; [discriminate|]. injection H as <-. eexists. repeat split.
+  - (* PRefLookup *)
+    left. split; [discriminate|].
+    destruct hit; [discriminate|]. destruct (rq_kind (t_req th)); try discriminate.
+    injection H as <-. eexists. repeat split.
+  - (* PLocked *)
+    right. split; [reflexivity|].
+    destruct (needs_balance th); [|discriminate]. injection H as <-. reflexivity.
+Qed.
+
+(* after a failed read nothing of [t] is in table or queue; unless the failing read was the balance read under the
+   locks, table, queue and every other thread are untouched *)
+Lemma e5_read_failed_step s t th s' : e5_Inv s -> get_thread (threads s) t = Some th ->
+  step s (AResumeReadFail t) = Some s' ->
+  ~ In t (v_queue s') /\ (forall h, In h (v_locks s') -> fst (fst h) <> t) /\
+  (t_pc th <> PLocked ->
+     v_locks s' = v_locks s /\ v_queue s' = v_queue s /\
+     forall u, u <> t -> get_thread (threads s') u = get_thread (threads s) u).
+Proof.
+  intros HI Eg H. change (resume_read_fail s t = Some s') in H.
+  pose proof (e5_resume_read_fail_inv _ _ _ HI H) as HI'.
+  pose proof (e5_read_fail_cases _ _ _ _ Eg H) as Hc.
+  assert (Hidle : e5_sto (threads s') t = E5Idle).
+  { destruct Hc as [(_ & thN & Et & Hi & _)|(_ & ->)].
+    - unfold e5_sto. rewrite Et, e5_get_set_same. exact Hi.
+    - unfold e5_sto, finish; simpl. rewrite e5_get_set_same. reflexivity. }
+  destruct (e5_idle_nothing _ _ HI' Hidle) as [A B]. split; [exact A|]. split; [exact B|].
+  intros Hn. destruct Hc as [(_ & thN & Et & _ & El & Eq)|(Hpc & _)]; [|contradiction].
+  split; [exact El|]. split; [exact Eq|].
+  intros u Hu. rewrite Et. apply e5_get_set_other. exact Hu.
+Qed.
+
+(* the balance read under the locks fails: table, queue and every other thread are exactly those after a release
+   by [t] ([unlock t]: DefaultLocker.unlock + the FIFO pass); [t] itself is finished with the read error *)
+Lemma e5_read_failed_is_release s t th s' : get_thread (threads s) t = Some th -> t_pc th = PLocked ->
+  step s (AResumeReadFail t) = Some s' ->
+  v_locks s' = v_locks (to_state (gen s) (unlock t (of_state s))) /\
+  v_queue s' = v_queue (to_state (gen s) (unlock t (of_state s))) /\
+  (forall x, x <> t -> get_thread (threads s') x = get_thread (threads (to_state (gen s) (unlock t (of_state s)))) x) /\
+  exists thF, get_thread (threads s') t = Some thF /\ t_pc thF = PFinished /\ t_resp thF = Some (RErr EStoreRead) /\
+              t_entry thF = t_entry th.
+Proof.
+  intros Eg Hpc H. change (resume_read_fail s t = Some s') in H.
+  destruct (e5_read_fail_cases _ _ _ _ Eg H) as [(Hn & _)|(_ & ->)]; [contradiction|].
+  split; [reflexivity|]. split; [reflexivity|]. split.
+  - intros x Hx. unfold finish; simpl. apply e5_get_set_other. exact Hx.
+  - unfold finish; simpl. rewrite e5_get_set_same. eexists. repeat split.
+Qed.
+
+Lemma e5_read_failed_release_shape s t th s' : e5_Inv s -> get_thread (threads s) t = Some th -> t_pc th = PLocked ->
+  step s (AResumeReadFail t) = Some s' ->
+  exists G,
+    v_locks s' = filter (fun h => negb (Nat.eqb (fst (fst h)) t)) (v_locks s) ++ map (e5_entry_of (threads s)) G /\
+    v_queue s' = filter (fun w => negb (mem_nat w G)) (v_queue s) /\
+    (forall w, In w G -> In w (v_queue s)) /\ ~ In t G /\
+    (forall x, x <> t -> get_thread (threads s') x =
+               if mem_nat x G then option_map e5_grant (get_thread (threads s) x) else get_thread (threads s) x) /\
+    exists thF, get_thread (threads s') t = Some thF /\ t_pc thF = PFinished /\ t_resp thF = Some (RErr EStoreRead).
+Proof.
+  intros HI Eg Hpc H.
+  destruct (e5_read_failed_is_release _ _ _ _ Eg Hpc H) as (El & Eq & Et & thF & EF & HF & HR & _).
+  destruct (e5_unlock_shape s t HI) as (G & GL & GQ & GI & GT).
+  exists G. split; [rewrite El; exact GL|]. split; [rewrite Eq; exact GQ|]. split; [exact GI|]. split.
+  - intro Hin. apply GI in Hin. apply (p_q _ _ _ _ _ HI t (e5_not_none t)) in Hin.
+    unfold e5_sto in Hin. rewrite Eg in Hin. unfold e5_st in Hin. rewrite Hpc in Hin. discriminate.
+  - split.
+    + intros x Hx. rewrite Et by exact Hx. apply GT.
+    + exists thF. auto.
+Qed.
+
 (* ---- schedules for the non-vacuity examples (Properties/C02_cancel.v) ------------------------------------- *)
 Definition e5_cr0 (ps : list posting) : request :=
   {| rq_kind := KCreate; rq_ik := 0%N; rq_ref := 0%N; rq_dry := false; rq_postings := ps; rq_unb := false;
@@ -1026,3 +1160,16 @@ Definition e5_show (o : option state) :=
   option_map (fun s => (v_locks s, v_queue s, v_iks s, v_refs s,
                         map (fun p => (fst p, t_pc (snd p), t_resp (snd p), t_granted (snd p))) (threads s))) o.
 Definition e5_lq (o : option state) := option_map (fun s => (v_locks s, v_queue s)) o.
+
+(* store read failures: request 1 (1 -> 2, 100) is parked at "locked" holding accounts 1, 2; request 2 (key 7,
+   reference 9, 1 -> 3) is queued behind it *)
+Definition e5_sp1 : request := e5_cr0 [(1%N, 2%N, 100%Z)].
+Definition e5_rf_queued : list action :=
+  e5_fund ++ [AStart 1 e5_sp1; AStart 2 e5_rq2; AResume 1] ++ repeat (AResume 2) 5.
+(* request 1 holds; request 2 has just taken its key (parked at "ik.taken"): its key lookup fails *)
+Definition e5_rf_ik : list action := e5_fund ++ [AStart 1 e5_sp1; AStart 2 e5_rq2; AResume 1].
+(* a SaveMeta (key 5) on the missing transaction 7, parked at "ik.lookup" (miss) while request 1 holds *)
+Definition e5_sm : request :=
+  {| rq_kind := KSaveMeta; rq_ik := 5%N; rq_ref := 0%N; rq_dry := false; rq_postings := []; rq_unb := false;
+     rq_revert := 0; rq_target_tx := Some 7 |}.
+Definition e5_rf_sm : list action := e5_fund ++ [AStart 1 e5_sp1; AResume 1; AStart 3 e5_sm; AResume 3].
